@@ -6,43 +6,6 @@ import Aqv.Lemmas.VmGas
 namespace Aqv.Vm
 open Aqv.Gen.VmFlags
 
-/-- highest stack index + 1 read by a memorySize function (memory_table.go) -/
-def memFnReads : MemFn → Nat
-  | .none => 0
-  | .memorySha3 => 2 | .memoryCallDataCopy => 3 | .memoryReturnDataCopy => 3 | .memoryCodeCopy => 3 | .memoryExtCodeCopy => 4
-  | .memoryMLoad => 1 | .memoryMStore8 => 1 | .memoryMStore => 1 | .memoryCreate => 3 | .memoryCall => 7
-  | .memoryDelegateCall => 6 | .memoryStaticCall => 6 | .memoryReturn => 2 | .memoryRevert => 2 | .memoryLog => 2
-
-/-- highest stack index + 1 read by a gas function (gas_table.go) -/
-def gasFnReads : GasFn → Nat
-  | .gasCallDataCopy => 3 | .gasReturnDataCopy => 3 | .gasCodeCopy => 3 | .gasExtCodeCopy => 4 | .gasSha3 => 2
-  | .gasSStore => 2 | .makeGasLog => 2 | .gasExp => 2 | .gasCall => 3 | .gasCallCode => 3 | .gasDelegateCall => 1
-  | .gasStaticCall => 1 | .gasSuicide => 1
-  | _ => 0
-
-/-- number of stack items the body of an execute function accesses (pop / peek / dup / swap depth), transcribed from
-    instructions.go; closures made by makeDup / makeSwap / makeLog take their parameter from the opcode they are installed at -/
-def execReads (f : OpF) : Nat :=
-  match f.execFn with
-  | .makePush => 0
-  | .makeDup => f.op - 0x80 + 1
-  | .makeSwap => f.op - 0x90 + 2
-  | .makeLog => f.op - 0xa0 + 2
-  | .opAdd => 2 | .opSub => 2 | .opMul => 2 | .opDiv => 2 | .opSdiv => 2 | .opMod => 2 | .opSmod => 2 | .opExp => 2
-  | .opSignExtend => 2 | .opLt => 2 | .opGt => 2 | .opSlt => 2 | .opSgt => 2 | .opEq => 2 | .opAnd => 2 | .opOr => 2 | .opXor => 2
-  | .opByte => 2 | .opSHL => 2 | .opSHR => 2 | .opSAR => 2
-  | .opNot => 1 | .opIszero => 1
-  | .opAddmod => 3 | .opMulmod => 3
-  | .opSha3 => 2
-  | .opAddress => 0 | .opOrigin => 0 | .opCaller => 0 | .opCallValue => 0 | .opCallDataSize => 0 | .opCodeSize => 0 | .opGasprice => 0
-  | .opCoinbase => 0 | .opTimestamp => 0 | .opNumber => 0 | .opDifficulty => 0 | .opGasLimit => 0 | .opPc => 0 | .opMsize => 0
-  | .opGas => 0 | .opReturnDataSize => 0 | .opJumpdest => 0 | .opStop => 0
-  | .opBalance => 1 | .opCallDataLoad => 1 | .opExtCodeSize => 1 | .opBlockhash => 1 | .opPop => 1 | .opMload => 1 | .opSload => 1
-  | .opJump => 1 | .opSuicide => 1
-  | .opCallDataCopy => 3 | .opCodeCopy => 3 | .opReturnDataCopy => 3 | .opExtCodeCopy => 4
-  | .opMstore => 2 | .opMstore8 => 2 | .opSstore => 2 | .opJumpi => 2 | .opReturn => 2 | .opRevert => 2
-  | .opCreate => 3 | .opCall => 7 | .opCallCode => 7 | .opDelegateCall => 6 | .opStaticCall => 6
-
 /-- per-opcode well-formedness of a table entry -/
 def opOK (f : OpF) : Bool :=
   -- the execute function of a CALL-family opcode is paired with its gas function (run dispatches on the former, the
@@ -60,13 +23,16 @@ def opOK (f : OpF) : Bool :=
   (f.halts || f.reverts || gasTables.all (fun gt => decide (1 ≤ gasFloor gt f))) &&
   -- CALL-family and CREATE do not end the frame
   (((execKind f.execFn).isNone && f.execFn != .opCreate) || (!f.halts && !f.reverts)) &&
-  -- stack reads of the memory-size and gas functions, of enforceRestrictions (Back(2) for CALL) and of the value operand
-  -- stay below the height validateStack guarantees
-  (memFnReads f.memFn ≤ f.pops && gasFnReads f.gasFn ≤ f.pops) &&
+  -- stack reads of the memory-size and gas functions (depths derived from the source by vmaccess) stay below the height
+  -- validateStack guarantees
+  (f.memReads ≤ f.pops && f.gasReads ≤ f.pops) &&
   -- hand classification "modifies state directly" ⊆ writes flag
   (!(execWrites f.execFn || f.execFn == .opCreate || gasTouchesState f.gasFn) || f.writes) &&
-  -- the execute body pops / peeks no deeper than validateStack guarantees
-  decide (execReads f ≤ f.pops)
+  -- the execute body pops / peeks no deeper than validateStack guarantees (depth derived from the source by vmaccess)
+  decide (f.execReads ≤ f.pops) &&
+  -- every memory range the execute body dereferences (derived from the source by vmaccess) is one of the ranges whose
+  -- calcMemSize the opcode's memory-size function takes the maximum of
+  f.execRanges.all (fun r => (memFnRanges f.memFn).contains r)
 
 theorem table_ok : ∀ ep : Epoch, (table ep).all opOK = true := by
   intro ep
